@@ -25,6 +25,15 @@ CLAIMS = {
             'resetState re-assigns with fresh values on all paths; print-started ordering; no global/class-level state; '
             'configuration writers census',
             'sufficient condition, fully static; parser scratch object re-initialised by every parse (C18)'),
+    'C18': ('regex automata over a 16-class alphabet (totality, progress, capture-group tiling of the line regex) and '
+            'abstract interpretation of GcodeParser.parse / parseLines / fullText / stringify / validate with symbolic match '
+            'objects (freshness of every reader attribute, fullText = tiling groups in order, offset chaining, checksum text agreement)',
+            'decides losslessness ingredients and checksum agreement; idempotence of normalisation as a whole is not decided; '
+            'semantics of re as in re._parser'),
+    'C19': ('regex language inclusion both ways against the RS274 number grammar, tokeniser progress automaton, abstract '
+            'interpretation of parameterItems (order, upper-casing, float conversion, offset chaining), last-wins of '
+            'parameterDict, dependence analysis letter -> tracked quantity over all handler paths',
+            'float() versus firmware strtod trusted; one occurrence per letter in the handler analysis'),
     'C20': ('abstract interpretation of StreamProcessor.__init__ (heap reachability: no live object reachable, deep copy) '
             'and process_line over the result shapes of the handlers (mapping, EOL, byte-for-byte pass-through, stale reads '
             'through the shared parser, flags of the command handed to the handlers)',
